@@ -2,6 +2,7 @@
 #![allow(clippy::type_complexity)]
 
 pub mod core;
+pub mod fuzzops;
 pub mod mpdfilter;
 pub mod mpdtok;
 pub mod cmdlab;
